@@ -57,7 +57,7 @@ def sx(o) -> str:
     if isinstance(o, float):
         raise TypeError("floats never travel on the wire: %r" % (o,))
     if isinstance(o, str):
-        if _SAFE.match(o):
+        if _SAFE.fullmatch(o):
             return "s:" + o
         return "h:" + o.encode("utf-8").hex()
     if isinstance(o, (list, tuple)):
